@@ -312,6 +312,16 @@ class World(object):
         self.mix = {}              # marker -> behaviour mix
         self.spawn_idx = {}        # marker -> count
         self.hook_calls = []       # (seq, t, watcher, hook, outcome, kwargs)
+        self.hook_observer = None      # callable(wname, hook, outcome, kwargs)
+        from . import hookmods as _hm
+
+        def _rec(wname, hook_name, out, kwargs):
+            kw = dict((k, v) for k, v in kwargs.items()
+                      if isinstance(v, (int, float, str, type(None))))
+            seq = self.sim.rec('hook', wname, hook_name, out)
+            self.hook_calls.append((seq, self.sim.now, wname, hook_name, out,
+                                    kw))
+        _hm.RECORDER = _rec
         self.hook_scripts = {}
         self.snapshot_fn = None    # used around dispatch (C10/C11)
         self.reply_hooks = []      # callbacks(req, entry) on a matched reply
@@ -438,10 +448,14 @@ class World(object):
         sim = self.sim
         state = {'n': 0}
 
+        world = self
+
         def _hook(watcher, arbiter, hook_name, **kwargs):
             i = state['n']
             state['n'] += 1
             out = script[i] if i < len(script) else script[-1]
+            if world.hook_observer is not None:
+                world.hook_observer(wname, hook_name, out, kwargs)
             kw = dict((k, v) for k, v in kwargs.items()
                       if isinstance(v, (int, float, str, type(None))))
             seq = sim.rec('hook', wname, hook_name, out)
